@@ -348,6 +348,10 @@ func c20Concurrent(res *Result, pool *DrvPool, w *c20lib.Workload, b c20Bounds, 
 		names := b.names
 		if q.Method == "HEAD" {
 			names = nil
+		} else if r.Marker != "" {
+			// the goroutine started before this request was sent is on its page
+			names = append(append([]string{}, names...), r.Marker)
+			res.Count("conc:with-fresh-goroutine")
 		}
 		if wt := c20lib.CheckResponse(q.Method, q.Maxmem, q.Augment, q.Similarity, r.Status, r.ContentType, r.Body, b.min, b.max, names); wt != "" {
 			res.Violation(Finding{Stream: "web concurrent", What: wt + " — " + q.Describe(), Op: q, Got: r.Status})
